@@ -10,6 +10,7 @@ import importlib
 import json
 import multiprocessing
 import os
+import pickle
 import re
 import subprocess
 import sys
@@ -102,7 +103,51 @@ def minimise(mod, case, viol, budget=300):
         return case
 
 
+def in_pristine_child(fn, *a):
+    """Run fn(*a) in a forked child of this (never-executing) process and return its pickled result, so that whatever
+    process-global state the library keeps cannot travel from one task, replay or minimisation test to the next:
+    one block of run indices = one process history, whichever worker picks it up."""
+    r, w = os.pipe()
+    child = os.fork()
+    if child == 0:
+        code = 1
+        try:
+            os.close(r)
+            data = pickle.dumps(fn(*a))
+            with os.fdopen(w, 'wb') as f:
+                f.write(data)
+            code = 0
+        finally:
+            os._exit(code)
+    os.close(w)
+    with os.fdopen(r, 'rb') as f:
+        data = f.read()
+    os.waitpid(child, 0)
+    if not data:
+        return None
+    return pickle.loads(data)
+
+
 def run_task(args):
+    res = in_pristine_child(run_task_inner, args)
+    if res is None:
+        return {'ok': False, 'error': 'task %r: child process died or timed out (see stderr)' % (args[3:5],)}
+    return res
+
+
+def run_sequence(pid, sequence, case):
+    """Execute earlier cases of a process history, then the case; returns the case's result."""
+    mod = load_prop(pid)
+    core.import_sut()
+    for c in sequence:
+        try:
+            mod.execute(core.deep_copy(c))
+        except Exception:   # noqa
+            pass
+    return execute_guarded(mod, core.deep_copy(case))
+
+
+def run_task_inner(args):
     pid, tier, verif_seed, start, stop, known = args
     faulthandler.dump_traceback_later(TASK_TIMEOUT, exit=True)
     try:
@@ -111,6 +156,8 @@ def run_task(args):
         rows = []
         minimised = 0
         seen_sigs = set()
+        history = []
+        disturbed = False
         for index in range(start, stop):
             seed = core.run_seed(verif_seed, pid, tier, index)
             t0 = time.perf_counter()
@@ -125,8 +172,18 @@ def run_task(args):
                 for v in res['violations']:
                     confirmed = any(core.same_class(v, w) for w in res2['violations'])
                     if not confirmed:
-                        raise core.HarnessError('violation did not reproduce on immediate re-run: %s seed %d'
-                                                % (v['signature'], seed))
+                        # the same explicit case gave another answer the second time: either the harness is not
+                        # deterministic, or the library carried state over from earlier runs of this process. The
+                        # driver decides which by re-executing this block's history in a pristine process.
+                        if disturbed:
+                            # this block already reports a confirmed violation (exit 1 either way) and its history
+                            # has been disturbed by the minimiser: nothing can be decided about this one
+                            row['stats'].setdefault('probes', {})['unconfirmed_after_minimiser_ran'] = 1
+                            continue
+                        row['violations'].append({'violation': v, 'case': case, 'minimised': False,
+                                                  'sequence': list(history)})
+                        return {'ok': True, 'rows': rows + [row]}
+                    disturbed = True    # re-runs and minimisation below are not part of the generated history
                     key = (v['kind'], v['signature'])
                     entry = {'violation': v, 'case': None, 'minimised': False}
                     is_known = match_known(v, known) is not None
@@ -145,6 +202,7 @@ def run_task(args):
                         entry['case'] = case
                     row['violations'].append(entry)
             rows.append(row)
+            history.append(case)
             if index == start:
                 rows[-1]['sample_case'] = case
         return {'ok': True, 'rows': rows}
@@ -172,13 +230,49 @@ def merge_stats(total, stats):
                 total[k] = total.get(k, 0) + v
 
 
-def write_replay(pid, seed, tier, case, viol):
+def write_replay(pid, seed, tier, case, viol, sequence=None):
     os.makedirs(REPLAY_DIR, exist_ok=True)
     path = os.path.join(REPLAY_DIR, '%s-%d-%s.json' % (pid, seed, core.digest(viol['signature'])[0:6]))
+    data = {'property': pid, 'seed': seed, 'tier': tier, 'case': case, 'violation': viol}
+    if sequence is not None:
+        # earlier runs of the same process, executed first: the violation needs the state they leave behind
+        data['sequence'] = sequence
     with open(path, 'w') as f:
-        json.dump({'property': pid, 'seed': seed, 'tier': tier, 'case': case, 'violation': viol},
-                  f, indent=1, sort_keys=True)
+        json.dump(data, f, indent=1, sort_keys=True)
     return path
+
+
+def minimise_sequence(pid, sequence, case, viol, budget=40):
+    """Shrink the process history a violation needs (each test in its own pristine process)."""
+    tests = [0]
+
+    def fails(seq):
+        if tests[0] >= budget:
+            return False
+        tests[0] += 1
+        r = in_pristine_child(run_sequence_safe, pid, seq, case)
+        return bool(r) and any(core.same_class(v, viol) for v in r['violations'])
+    if not fails(sequence):
+        return None
+    # shortest suffix first (the state usually comes from the last few runs), then ddmin
+    n = 1
+    while n < len(sequence):
+        if fails(sequence[-n:]):
+            sequence = sequence[-n:]
+            break
+        n *= 2
+    try:
+        sequence = core.ddmin(sequence, fails)
+    except Exception:   # noqa
+        pass
+    return sequence
+
+
+def run_sequence_safe(pid, sequence, case):
+    try:
+        return run_sequence(pid, sequence, case)
+    except Exception:   # noqa
+        return None
 
 
 def fresh_replay(path):
@@ -294,7 +388,16 @@ def check(pid, tier, verif_seed, runs=None, workers=None, wall_cap=None, quiet=F
         case = e['case']
         if case is None:
             case = mod.generate(r['seed'], tier)
-        path = write_replay(pid, r['seed'], tier, case, e['violation'])
+        seq = None
+        if e.get('sequence') is not None:
+            seq = minimise_sequence(pid, e['sequence'], case, e['violation'])
+            if seq is None:
+                print('HARNESS-ERROR property=%s violation %s (seed %d) reproduced neither on immediate re-run nor '
+                      'from its process history' % (pid, e['violation']['signature'], r['seed']))
+                return 2
+            e['violation']['details']['needs_earlier_runs_in_same_process'] = len(seq)
+            e['minimised'] = len(seq) < len(e['sequence'])
+        path = write_replay(pid, r['seed'], tier, case, e['violation'], sequence=seq)
         ok, outp = fresh_replay(path)
         if not ok:
             print('HARNESS-ERROR property=%s replay of %s did not reproduce in a fresh interpreter' % (pid, path))
@@ -356,7 +459,10 @@ def replay(path):
         data = json.load(f)
     mod = load_prop(data['property'])
     core.import_sut()
-    res = execute_guarded(mod, data['case'])
+    if data.get('sequence'):
+        res = run_sequence(data['property'], data['sequence'], data['case'])
+    else:
+        res = execute_guarded(mod, data['case'])
     want = data['violation']
     got = [v for v in res['violations'] if core.same_class(v, want)]
     if got:
